@@ -72,7 +72,7 @@ CLAIMED = {
   technique="TLA+ spec (Integrity.tla) + exhaustive fault / truncation enumeration through a crash-supervised case server in both build profiles + trace validation (IntegrityTrace.tla)",
   design="5 C06"),
  "C09": dict(
-  text="AtomicCreate.tla: the creator's steps (create temp in the destination directory, write, finish, rename) for the outputs of each packaging in the order BasicCreator persists them, with a crash or an I/O error possible between any two steps, with and without a previous file: DestAllOrNothing, EntryPointLast, NoPartialAtDest on all 12 configurations (the defect variants WriteInPlace / EntryFirst violate them). The real BasicCreator runs in a child process: once under strace (AtomicCreateTrace.tla rejects a destination opened for writing, truncation or creation, and an entry point renamed before the files it names), then killed (SIGXFSZ, SIGKILL) or made to fail (EFBIG, ENOSPC) at every write-size limit (quick: write boundaries +-1, thorough: every byte) at every k-th write/rename/open system call (kill) and with an error returned once by every single write / rename call (both tiers); after each run every destination is classified by really opening it (independent decoder: all CRCs and hashes; library: full dump equals the logical container) and must be absent, the previous file or complete, a new entry point implying complete referenced files.",
+  text="AtomicCreate.tla: the creator's steps (create temp in the destination directory, write, finish, rename) for the outputs of each packaging in the order BasicCreator persists them, with a crash or an I/O error possible between any two steps, with and without a previous file: DestAllOrNothing, EntryPointLast, NoPartialAtDest on all 12 configurations (the defect variants WriteInPlace / EntryFirst violate them). The real BasicCreator runs in a child process: once under strace (AtomicCreateTrace.tla rejects a destination opened for writing, truncation or creation, and an entry point renamed before the files it names), then killed (SIGXFSZ, SIGKILL) or made to fail (EFBIG, ENOSPC) at every write-size limit (quick: write boundaries +-1, thorough: every byte) at every k-th write/rename/open system call (kill) with an error returned once by every single write / rename call, and with every single write to a regular file made a short write by an LD_PRELOAD shim (both tiers); after each run every destination is classified by really opening it (independent decoder: all CRCs and hashes; library: full dump equals the logical container) and must be absent, the previous file or complete, a new entry point implying complete referenced files.",
   note="Crash = process termination, not power loss. Temporary files left behind are allowed. strace counts invocations per thread: a k can be shadowed by another thread; the write-size limit variant is per byte.",
   technique="TLA+ spec (AtomicCreate.tla) model-checked with TLC + strace-recorded file-system protocol and exhaustive crash / I/O-error injection on the real creator + trace validation (AtomicCreateTrace.tla)",
   design="5 C09"),
